@@ -106,3 +106,10 @@ Theorem C11_src_pin_common_allocate_file : pin_unchanged name_common_allocate_fi
 Proof. exact pin_common_allocate_file. Qed.
 Print Assumptions C11_src_pin_parblock_dispatch_worker.
 Print Assumptions C11_src_pin_common_allocate_file.
+
+(* ---- parblock::queue_file_blocks, translated: a sparse-looking file is queued range by range from the merged extent map (30 sparseness test, 42, 43, 44), the whole file otherwise (45) ---- *)
+From XcpModel Require Import Ops.
+From XcpProofs Require Import XOps.
+Theorem C11_src_queue_file_blocks_steps : x_queue_file_blocks_steps = queue_file_blocks_steps.
+Proof. exact x_queue_file_blocks_steps_ok. Qed.
+Print Assumptions C11_src_queue_file_blocks_steps.
